@@ -34,6 +34,9 @@ struct GenCfg {
     bool charges = false;      // numerical kernels: signed charges
     bool noCoincident = false; // numerical kernels: no two particles at the same position
     bool interiorOnly = false; // keep particles away from cell faces/centres/axes (numerical known findings)
+    bool noCentre = false;     // no coordinate equal to the centre coordinate of its leaf (rotation kernel known findings F-ROT-CENTRE / F-ROT-AXIS)
+    bool exactFacesOnly = false; // particles exactly on a cell/box face only when the box is dyadic (exact arithmetic), see F-UNIF-ROOTS-ASSERT
+    int widthDecades = 6;      // box widths span 10^-d .. 10^d (dyadic boxes 2^-d .. 2^d)
     int variants = 1;          // c.variant drawn in [0, variants)
 };
 
